@@ -199,12 +199,24 @@ func vfC14(c *hx.Ctx) {
 		ciph   string
 		ds, ps int
 	}
-	classes := []class{{"", 0, 0}, {"aes-128", 0, 0}, {"aes-gcm", 0, 0}, {"", 2, 1}, {"aes-128", 3, 2}, {"aes-gcm", 1, 1},
-		{"twofish", 0, 0}, {"blowfish", 2, 1}, {"salsa20", 0, 0}, {"sm4", 0, 0}, {"3des", 0, 0}, {"cast5", 2, 1}, {"tea", 0, 0}, {"xtea", 0, 0}, {"xor", 0, 0}, {"none", 0, 0}} // pure-Go block ciphers (16- and 8-byte blocks): their feedback buffers are visible to ThreadSanitizer, AES assembly is not
+	// pure-Go block ciphers (16- and 8-byte blocks): their feedback buffers are visible to ThreadSanitizer, AES assembly is not.
+	// Whole units are dealt to the shards round-robin, so classes four apart share a shard: the order spreads the expensive
+	// ones (xor and 3des key schedules, the pure-Go ciphers) evenly over the four columns.
+	classes := []class{{"aes-128", 0, 0}, {"", 0, 0}, {"", 2, 1}, {"none", 0, 0},
+		{"aes-gcm", 0, 0}, {"aes-gcm", 1, 1}, {"xtea", 0, 0}, {"aes-128", 3, 2},
+		{"salsa20", 0, 0}, {"tea", 0, 0}, {"twofish", 0, 0}, {"blowfish", 2, 1},
+		{"xor", 0, 0}, {"3des", 0, 0}, {"cast5", 2, 1}, {"sm4", 0, 0}}
 	closes := []string{"none", "client", "server", "listener"}
-	n := len(classes) * len(closes)
-	per := (n + max(c.Of, 1) - 1) / max(c.Of, 1)
-	left := time.Until(c.Deadline)
+	// this shard's units share what is left of the budget, each taking an equal part of what remains when it starts; in the
+	// quick tier an execution cap that a normal machine reaches well before its share is used up makes the work done
+	// independent of the machine's speed (the deadline is only the safety net)
+	mine := 0
+	for k := 1; k <= len(classes)*len(closes); k++ {
+		if c.Mine(k) {
+			mine++
+		}
+	}
+	c.MaxExecs = hx.Pick(c, 600, 0)
 	for _, cl := range classes {
 		for _, closeWho := range closes {
 			closeWho := closeWho
@@ -312,7 +324,10 @@ func vfC14(c *hx.Ctx) {
 				second.Close()
 				p.teardown()
 			}
-			c.UnitBudget = left / time.Duration(max(per, 1))
+			if c.Mine(1) {
+				c.UnitBudget = max(time.Until(c.Deadline), 0) / time.Duration(max(mine, 1))
+				mine--
+			}
 			pr := vfPairParams(cf, bound)
 			pr["close"] = closeWho
 			pr["methods"] = len(vfSessionMethods()) + len(vfListenerMethods())
